@@ -41,6 +41,13 @@ pub fn run(thorough: bool, seed: u64, _replay: Option<String>) -> Report {
         s.incl = vec!["ascii".into(), "utf-8".into(), "windows-1252".into()];
         contents.push((b, s, format!("size-{}", len)));
     }
+    // files well beyond every internal limit (1,000,000 / 500,000 and sums of them): head ASCII, tail UTF-8
+    for len in [1_500_001usize, 2_100_000, 4_200_000] {
+        let mut b: Vec<u8> = std::iter::repeat(*b"The quick brown fox jumps over the lazy dog. ").take(len / 45 + 1).flatten().collect();
+        b.truncate(len - 40);
+        b.extend_from_slice("…fin: déjà vu, naïve café, Ünïcödé at the very end".as_bytes());
+        contents.push((b, Sett::default(), format!("size-{}-utf8-tail", len)));
+    }
     for _ in 0..n {
         let mut r = rng.fork();
         let c = structured_case(&mut r, &corpus);
